@@ -55,13 +55,14 @@ def availabilityWitnesses : List String := Id.run do
     for t1 in bools do for t2 in bools do for t3 in bools do for t4 in bools do
       for c1 in bools do for c2 in bools do for c3 in bools do for c4 in bools do
         for neon in bools do
-          let E : Env := { testEnv with feat_std := std, tf_avx512f := t1, tf_avx512bw := t2, tf_avx2 := t3, tf_fma := t4, cpu_avx512f := c1, cpu_avx512bw := c2, cpu_avx2 := c3, cpu_fma := c4, tf_neon := neon, cpu_neon := neon }
+         for other in bools do
+          let E : Env := { testEnv with feat_std := std, tf_avx512f := t1, tf_avx512bw := t2, tf_avx2 := t3, tf_fma := t4, cpu_avx512f := c1, cpu_avx512bw := c2, cpu_avx2 := c3, cpu_fma := c4, tf_neon := neon, cpu_neon := neon, tf_avx := other, tf_sse2 := other, tf_sse4_1 := other, tf_sse4_2 := other, tf_avx512vl := other, tf_avx512dq := other, cpu_avx := other, cpu_sse2 := other, cpu_sse4_1 := other, cpu_sse4_2 := other, cpu_avx512vl := other, cpu_avx512dq := other }
           for (name, g, feats) in guards do
             match g E with
             | .ok true =>
               for (fname, has) in feats do
                 if !has E && out.length < 8 then
-                  out := out ++ [s!"{name}() answers true although {fname} is absent: std={std} target_features(avx512f,avx512bw,avx2,fma)=({t1},{t2},{t3},{t4}) cpu(avx512f,avx512bw,avx2,fma)=({c1},{c2},{c3},{c4}) neon={neon}"]
+                  out := out ++ [s!"{name}() answers true although {fname} is absent: std={std} target_features(avx512f,avx512bw,avx2,fma)=({t1},{t2},{t3},{t4}) cpu(avx512f,avx512bw,avx2,fma)=({c1},{c2},{c3},{c4}) neon={neon} other x86 features (avx, sse*, avx512vl/dq: compile-time and detected)={other}"]
             | _ => pure ()
   return out
 
